@@ -1,0 +1,17 @@
+//go:build verif
+
+// Contracts for package utils, read by /verif/govc (comment-only).
+package utils
+
+// The per-entry step of CopyDir (the callback handed to filepath.Walk): an entry is left out only because its own
+// name matches an exclude pattern, and a file is copied whole (what was read is what is written, under the same
+// relative name)
+//@ func utils.CopyDir$1
+//@   props C20
+//@   io_effect
+//@   requires [walk] err == nil ==> info != nil
+//@   at filepath.Match assert [left-out-only-by-its-own-name] arg1 == result_of("(fs.FileInfo).Name") && (exists i :: 0 <= i && i < len(exclude) && arg0 == exclude[i])
+//@   at os.ReadFile assert [reads-the-entry-under-the-source-directory] arg0 == result_of("filepath.Join")
+//@   at os.WriteFile assert [writes-all-that-was-read] arg1 == result_of("os.ReadFile", 0)
+//@   checks [an-entry-is-copied-or-left-out-by-name-or-reported] result == nil ==> called("os.WriteFile") || called("os.MkdirAll") || (called("filepath.Match") && result_of("filepath.Match", 0)) || result_of("strings.Replace") == ""
+//@   modifies nothing
